@@ -334,19 +334,31 @@ func c12Hmtx(r *run.Run) {
 	if !r.Quick() {
 		lim = 64
 	}
-	r.Explore(explore.Config{Name: "C12.caret"}, "caret slopes: all coprime (rise, run) with |rise|,|run| <= 24 (quick) / 64 plus extremes; the encoded slope decodes to the same angle", func(c *explore.Ctx) {
+	r.Explore(explore.Config{Name: "C12.caret", Bound: 1}, "caret slopes: all coprime (rise, run) with |rise|,|run| <= 24 (quick) / 64 plus 9 extreme fractions with components near 32767; the encoded slope decodes to the same angle, and a slope read from a file is written back as the same fraction", func(c *explore.Ctx) {
 		rise := c.Choose(2*lim+1, "rise") - lim
 		run := c.Choose(2*lim+1, "run") - lim
 		if rise == 0 && run == 0 || gcd(rise, run) != 1 {
 			c.Skip("not coprime")
 		}
-		switch c.Deviate(4, "extreme") {
+		switch c.Deviate(10, "extreme") {
 		case 1:
 			rise, run = 32767, 1
 		case 2:
 			rise, run = 32767, 32766
 		case 3:
 			rise, run = 1, 32767
+		case 4:
+			rise, run = 32766, 32767
+		case 5:
+			rise, run = 32767, -32766
+		case 6:
+			rise, run = 32765, 32767
+		case 7:
+			rise, run = 2, 32767
+		case 8:
+			rise, run = -32767, 32766
+		case 9:
+			rise, run = 16383, 16384
 		}
 		angle := math.Atan2(float64(rise), float64(run)) - math.Pi/2
 		x := &hmtx.Info{CaretAngle: angle}
@@ -366,6 +378,21 @@ func c12Hmtx(r *run.Run) {
 		}
 		if d > 1e-7 {
 			c.Fail("C12.caret", "angle", "caret slope %d/%d (angle %.9f) written as %d/%d, read as angle %.9f", rise, run, angle, gr, gn, y.CaretAngle)
+		}
+		// exactly: a slope that is stored in a file as the reduced fraction rise/run is written back as the
+		// same fraction (the same direction: equal up to a common sign)
+		patched := append([]byte{}, hh...)
+		binary.BigEndian.PutUint16(patched[18:], uint16(int16(rise)))
+		binary.BigEndian.PutUint16(patched[20:], uint16(int16(run)))
+		z, err := hmtx.Decode(patched, nil)
+		if err != nil {
+			c.Fail("C12.caret", "Decode", "hhea with caret slope %d/%d rejected: %v", rise, run, err)
+			return
+		}
+		hh2, _ := z.Encode()
+		r2, n2 := int(int16(binary.BigEndian.Uint16(hh2[18:]))), int(int16(binary.BigEndian.Uint16(hh2[20:])))
+		if !(r2 == rise && n2 == run) && !(r2 == -rise && n2 == -run) {
+			c.Fail("C12.caret", "exact", "an hhea table with caret slope rise/run = %d/%d is decoded and written back with %d/%d", rise, run, r2, n2)
 		}
 	})
 
@@ -533,12 +560,69 @@ func c12FontTimes(r *run.Run) {
 		})
 }
 
+// large horizontal metrics tables: the number of long metrics is a 16-bit count and 4 * count bytes long
+func c12HmtxScaled(r *run.Run) {
+	cases := [][2]int{{255, 0}, {256, 1}, {16383, 0}, {16384, 0}, {16385, 0}, {16385, 5}, {20000, 0}, {32768, 1}, {40000, 20000}, {65535, 0}, {65535, 65000}, {65535, 49152}}
+	r.Explore(explore.Config{Name: "C12.hmtx-scaled"},
+		"hmtx/hhea for {255, 256, 16383, 16384, 16385, 20000, 32768, 40000, 65535} glyphs with distinct widths followed by a constant tail of {0, 1, 5, 20000, 49152, 65000} glyphs, explicit and implicit left side bearings: Decode(Encode(x)) returns the same widths and side bearings, numberOfHMetrics is minimal",
+		func(c *explore.Ctx) {
+			cs := cases[c.Choose(len(cases), "glyphs, constant tail")]
+			n, tail := cs[0], cs[1]
+			explicit := c.Bool("explicit LSB")
+			x := &hmtx.Info{Ascent: 800, Descent: -200}
+			for i := 0; i < n; i++ {
+				w := funit.Int16(300 + i%977)
+				if i >= n-tail {
+					w = 555
+				}
+				x.Widths = append(x.Widths, w)
+				x.GlyphExtents = append(x.GlyphExtents, funit.Rect16{LLx: funit.Int16(i%50 - 10), URx: funit.Int16(200 + i%90), URy: 700})
+				if explicit {
+					x.LSB = append(x.LSB, funit.Int16(i%31-7))
+				}
+			}
+			desc := fmt.Sprintf("%d glyphs, constant tail of %d, explicit LSB %v", n, tail, explicit)
+			c.Sample(func() any { return desc })
+			c.Nontrivial()
+			hh, hm := x.Encode()
+			c.Outcome(len(hm), desc)
+			y, err := hmtx.Decode(hh, hm)
+			if err != nil {
+				c.Fail("C12.hmtx", "scaled Decode", "Decode(Encode(x)) fails: %v (%s)", err, desc)
+				return
+			}
+			if len(y.Widths) != n {
+				c.Fail("C12.hmtx", "scaled count", "%d widths come back as %d (%s)", n, len(y.Widths), desc)
+				return
+			}
+			for i := 0; i < n; i++ {
+				wl := x.GlyphExtents[i].LLx
+				if explicit {
+					wl = x.LSB[i]
+				}
+				if y.Widths[i] != x.Widths[i] || i < len(y.LSB) && y.LSB[i] != wl || len(y.LSB) != n {
+					c.Fail("C12.hmtx", "scaled values", "glyph %d: width %d, LSB %d (of %d) come back, written %d, %d (%s)", i, y.Widths[i], y.LSB[min(i, len(y.LSB)-1)], len(y.LSB), x.Widths[i], wl, desc)
+					return
+				}
+			}
+			nLong := int(binary.BigEndian.Uint16(hh[34:]))
+			wantLong := n
+			for wantLong > 1 && x.Widths[wantLong-2] == x.Widths[n-1] {
+				wantLong--
+			}
+			if nLong != wantLong || len(hm) != 4*nLong+2*(n-nLong) {
+				c.Fail("C12.hmtx", "scaled numberOfHMetrics", "numberOfHMetrics = %d and %d bytes of hmtx; the minimal count is %d (%d bytes) (%s)", nLong, len(hm), wantLong, 4*wantLong+2*(n-wantLong), desc)
+			}
+		})
+}
+
 func init() {
 	Register("C12", func(r *run.Run) {
 		r.Rule = "boundary-value deviations (d<=2) of every Info field via reflection; exhaustive width vectors, caret slopes and version values; derived fields recomputed from definitions on raw bytes"
 		r.Assume = []string{"advance widths are non-negative", "angles compared to 1e-7 rad; post italic angle to 16.16"}
 		c12Tables(r)
 		c12Hmtx(r)
+		c12HmtxScaled(r)
 		c12Derived(r)
 		c12FontTimes(r)
 	})
